@@ -36,4 +36,883 @@ def expectedEvaluate :
   allLevels.flatMap fun l => allActions.flatMap fun a => [false, true].flatMap fun st => ruleOpts.map fun ro =>
     ((some l, some a, st, ro), evalProbe l a st ro)
 
+
+/-! ### Baseline check -/
+
+def InBaseline (pr : Profile) (p : Peptide) : Prop :=
+  pr.lenLo ≤ p.lenMean ∧ p.lenMean ≤ pr.lenHi ∧ pr.timeLo ≤ p.timeMean ∧ p.timeMean ≤ pr.timeHi ∧
+  pr.confLo ≤ p.confMean ∧ p.confMean ≤ pr.confHi ∧ p.errRate ≤ pr.errMax ∧
+  p.vocab ∈ pr.vocabs ∧ p.struct ∈ pr.structs ∧ (∀ c, p.canary = some c → pr.canaryMin ≤ c)
+
+theorem canaryFails_eq_false_iff (pr : Profile) (p : Peptide) :
+    canaryFails pr p = false ↔ ∀ c, p.canary = some c → pr.canaryMin ≤ c := by
+  unfold canaryFails
+  cases h : p.canary with
+  | none => simp
+  | some c => simp [Rat.not_lt]
+
+theorem check_eq_nil_iff (pr : Profile) (p : Peptide) : check pr p = [] ↔ InBaseline pr p := by
+  unfold check InBaseline inBounds
+  rw [← canaryFails_eq_false_iff]
+  simp only [List.append_eq_nil_iff]
+  constructor
+  · intro h
+    obtain ⟨h1, h2, h3, h4, h5, h6, h7⟩ := h
+    simp at h1 h2 h3 h4 h5 h6 h7
+    simp [Rat.not_lt] at h4
+    exact ⟨h1.1, h1.2, h2.1, h2.2, h3.1, h3.2, h4, h5, h6, h7⟩
+  · rintro ⟨a, b, c, d, e, f, g, h, i, j⟩
+    simp [*, Rat.not_lt.mpr g]
+
+/-! ### T cell -/
+
+def Threat (l : Level) : Prop := l = .confirmed ∨ l = .critical
+
+instance (l : Level) : Decidable (Threat l) := by unfold Threat; infer_instance
+
+/-- the action `_determine_response` pairs with a level -/
+def actionFor : Level → Action
+  | .noThreat => .ignore | .suspicious => .monitor | .confirmed => .isolate | .critical => .shutdown
+
+def TCell.SecondSignal (t : TCell) (p : Peptide) : Prop :=
+  canaryFails t.profile p = true ∨ t.flag = true ∨ t.repThr ≤ (t.anomaly : Int) + 1
+
+theorem respond_action (a : Signal1) (b : Signal2) (c d : Bool) :
+    (respond a b c d).2 = actionFor (respond a b c d).1 := by
+  cases a <;> cases b <;> cases c <;> cases d <;> rfl
+
+theorem signal2Of_true_absent_iff (t : TCell) (p : Peptide) :
+    signal2Of t p true = .absent ↔ ¬ t.SecondSignal p := by
+  unfold signal2Of TCell.SecondSignal
+  by_cases h1 : t.repThr ≤ (t.anomaly : Int) + 1 <;> by_cases h2 : canaryFails t.profile p = true <;>
+    by_cases h3 : t.flag = true <;> simp [h1, h2, h3]
+
+theorem respond_nonSelf_threat (s2 : Signal2) (c d : Bool) :
+    Threat (respond .nonSelf s2 c d).1 ↔ s2 ≠ .absent := by
+  cases s2 <;> cases c <;> cases d <;> simp [respond, Threat]
+
+/-- everything later proofs need about one T-cell inspection -/
+theorem inspect_spec (t : TCell) (p : Peptide) :
+    (t.isAnergic = true ∧ (t.inspect p) = (t, ⟨.noThreat, .ignore, .unknown, .absent, [], true⟩)) ∨
+    (t.isAnergic = false ∧ check t.profile p = [] ∧ (t.inspect p).2.level = .noThreat ∧
+      (t.inspect p).2.action = .ignore ∧ (t.inspect p).2.s1 = .self ∧ (t.inspect p).2.viols = [] ∧
+      (t.inspect p).2.anergic = false ∧ ((t.inspect p).2.s2 = .manual ∨ (t.inspect p).2.s2 = .absent)) ∨
+    (t.isAnergic = false ∧ check t.profile p ≠ [] ∧ (t.inspect p).2.s1 = .nonSelf ∧
+      (t.inspect p).2.s2 = signal2Of t p true ∧ (t.inspect p).2.viols = check t.profile p ∧
+      (t.inspect p).2.anergic = false ∧
+      (t.inspect p).2.level = (respond .nonSelf (signal2Of t p true) (decide (3 ≤ (check t.profile p).length)) (canaryLow p)).1 ∧
+      (t.inspect p).2.action = (respond .nonSelf (signal2Of t p true) (decide (3 ≤ (check t.profile p).length)) (canaryLow p)).2) := by
+  unfold TCell.inspect
+  by_cases ha : t.isAnergic = true
+  · left; simp [ha]
+  · right
+    have ha' : t.isAnergic = false := by simpa using ha
+    by_cases hc : (check t.profile p).isEmpty = true
+    · left
+      have hnil : check t.profile p = [] := by simpa using hc
+      have hcf : canaryFails t.profile p = false := by
+        unfold check at hnil
+        simp only [List.append_eq_nil_iff] at hnil
+        have := hnil.2.2.2.2.2.2
+        by_cases h : canaryFails t.profile p = true
+        · simp [h] at this
+        · simpa using h
+      simp only [ha', hnil]
+      refine ⟨trivial, trivial, ?_⟩
+      simp [signal2Of, hcf, respond]
+    · right
+      have hne : check t.profile p ≠ [] := by simpa using hc
+      simp [ha', hc, hne]
+
+
+/-! ### Regulatory T cell -/
+
+/-- rung of an action on the ladder IGNORE < MONITOR < ISOLATE < SHUTDOWN (ALERT is not on it) -/
+def Action.rung : Action → Option Nat
+  | .ignore => some 0 | .monitor => some 1 | .isolate => some 2 | .shutdown => some 3 | .alert => none
+
+/-- `m` is `o` itself, or both are on the ladder and `m` is exactly one rung below `o` -/
+def AtMostOneStepLower (o m : Action) : Prop :=
+  m = o ∨ (m.rung.isSome = true ∧ o.rung = m.rung.map (· + 1))
+
+instance (o m : Action) : Decidable (AtMostOneStepLower o m) :=
+  inferInstanceAs (Decidable (_ ∨ _))
+
+theorem downgrade_one_step (a : Action) (h : a ≠ .alert) : AtMostOneStepLower a (downgrade a) := by
+  cases a <;> simp [AtMostOneStepLower, downgrade, Action.rung] at *
+
+theorem evaluate_spec (g : Treg) (resp : Response) (rec : Record) :
+    (resp.level = .critical ∧ g.evaluate resp rec = .ok false resp.action resp.action) ∨
+    (resp.level ≠ .critical ∧
+      (g.evaluate resp rec = .raise ∨
+       g.evaluate resp rec = .ok false resp.action resp.action ∨
+       g.evaluate resp rec = .ok true resp.action (downgrade resp.action) ∨
+       (resp.level = .suspicious ∧ g.stability ≤ (rec.clean : Int) ∧ g.evaluate resp rec = .ok true resp.action .ignore))) := by
+  unfold Treg.evaluate
+  by_cases hc : resp.level = .critical
+  · left; simp [hc]
+  · right
+    refine ⟨hc, ?_⟩
+    simp only [hc, if_false]
+    by_cases hs : (decide (g.stability ≤ (rec.clean : Int)) && decide (resp.level = .suspicious)) = true
+    · simp only [hs, if_true]
+      simp at hs
+      exact Or.inr (Or.inr (Or.inr ⟨hs.2, hs.1, trivial⟩))
+    · simp only [hs]
+      cases firstFiring g.rules resp rec <;> simp
+
+
+/-! ### Pipeline tail -/
+
+/-- what the pipeline's tail can do to the T cell's answer -/
+def Softened (r r' : Response) : Prop :=
+  r'.level = r.level ∧ r'.s1 = r.s1 ∧ r'.s2 = r.s2 ∧ r'.viols = r.viols ∧
+  (r'.action = r.action ∨
+    (r.level ≠ .critical ∧ (r'.action = downgrade r.action ∨ (r.level = .suspicious ∧ r'.action = .ignore))))
+
+theorem afterTCell_spec (s : Sys) (a : Nat) (ag : Agent) (p : Peptide) (mem : Memory) (t' : TCell) (r : Response) :
+    ((s.afterTCell a ag p mem t' r).2 = .raiseCond ∧ (s.afterTCell a ag p mem t' r).1.mem = mem) ∨
+    (∃ r', (s.afterTCell a ag p mem t' r).2 = .resp r' ∧ Softened r r' ∧
+      ((¬ Threat r.level ∧ (s.afterTCell a ag p mem t' r).1.mem = mem) ∨
+       (Threat r.level ∧ ∃ k, (s.afterTCell a ag p mem t' r).1.mem = mem.store ⟨a, p.vocab, p.struct, r.level, r'.action, k⟩))) := by
+  unfold Sys.afterTCell
+  cases hrec : ag.record with
+  | none =>
+    right
+    by_cases ht : r.level = .confirmed ∨ r.level = .critical
+    · simp only [ht, if_true]
+      exact ⟨r, rfl, ⟨rfl, rfl, rfl, rfl, Or.inl rfl⟩, Or.inr ⟨ht, _, rfl⟩⟩
+    · simp only [ht, if_false]
+      exact ⟨r, rfl, ⟨rfl, rfl, rfl, rfl, Or.inl rfl⟩, Or.inl ⟨ht, trivial⟩⟩
+  | some rec =>
+    simp only []
+    rcases evaluate_spec s.treg r rec with ⟨hc, he⟩ | ⟨hc, he | he | he | ⟨hs, _, he⟩⟩
+    · right
+      rw [he]
+      have ht : r.level = .confirmed ∨ r.level = .critical := Or.inr hc
+      simp only [ht, if_true]
+      exact ⟨_, rfl, ⟨rfl, rfl, rfl, rfl, Or.inl (by simp)⟩, Or.inr ⟨ht, _, rfl⟩⟩
+    · left; rw [he]; exact ⟨rfl, rfl⟩
+    · right
+      rw [he]
+      by_cases ht : r.level = .confirmed ∨ r.level = .critical
+      · simp only [ht, if_true]
+        exact ⟨_, rfl, ⟨rfl, rfl, rfl, rfl, Or.inl (by simp)⟩, Or.inr ⟨ht, _, rfl⟩⟩
+      · simp only [ht, if_false]
+        exact ⟨_, rfl, ⟨rfl, rfl, rfl, rfl, Or.inl (by simp)⟩, Or.inl ⟨ht, trivial⟩⟩
+    · right
+      rw [he]
+      by_cases ht : r.level = .confirmed ∨ r.level = .critical
+      · simp only [ht, if_true]
+        exact ⟨_, rfl, ⟨rfl, rfl, rfl, rfl, Or.inr ⟨hc, Or.inl (by simp)⟩⟩, Or.inr ⟨ht, _, rfl⟩⟩
+      · simp only [ht, if_false]
+        exact ⟨_, rfl, ⟨rfl, rfl, rfl, rfl, Or.inr ⟨hc, Or.inl (by simp)⟩⟩, Or.inl ⟨ht, trivial⟩⟩
+    · right
+      rw [he]
+      have ht : ¬ (r.level = .confirmed ∨ r.level = .critical) := by rw [hs]; simp
+      simp only [ht, if_false]
+      exact ⟨_, rfl, ⟨rfl, rfl, rfl, rfl, Or.inr ⟨hc, Or.inr ⟨hs, by simp⟩⟩⟩, Or.inl ⟨ht, trivial⟩⟩
+
+
+/-! ### Memory and the pipeline's case split -/
+
+def Sig.core (s : Sig) : Nat × Nat × Nat × Level × Action := (s.agent, s.vocab, s.struct, s.level, s.action)
+
+theorem recallGo_some (a v st now : Nat) (l : List Sig) (sig : Sig)
+    (h : (recallGo a v st now l).2 = some sig) : sig ∈ l ∧ sig.agent = a ∧ sig.vocab = v ∧ sig.struct = st := by
+  induction l with
+  | nil => simp [recallGo] at h
+  | cons x r ih =>
+    unfold recallGo at h
+    by_cases hx : x.hits a v st = true
+    · simp only [hx, if_true] at h
+      cases h
+      simp [Sig.hits] at hx
+      exact ⟨List.mem_cons_self, hx.1.1, hx.1.2, hx.2⟩
+    · simp only [hx] at h
+      have := ih h
+      exact ⟨List.mem_cons_of_mem _ this.1, this.2⟩
+
+theorem recallGo_core (a v st now : Nat) (l : List Sig) :
+    ∀ x ∈ (recallGo a v st now l).1, ∃ y ∈ l, y.core = x.core := by
+  induction l with
+  | nil => simp [recallGo]
+  | cons z r ih =>
+    unfold recallGo
+    by_cases hz : z.hits a v st = true
+    · simp only [hz, if_true]
+      intro x hx
+      rcases List.mem_cons.mp hx with rfl | hx
+      · exact ⟨z, List.mem_cons_self, rfl⟩
+      · exact ⟨x, List.mem_cons_of_mem _ hx, rfl⟩
+    · simp only [hz]
+      intro x hx
+      rcases List.mem_cons.mp hx with rfl | hx
+      · exact ⟨x, List.mem_cons_self, rfl⟩
+      · obtain ⟨y, hy, hc⟩ := ih x hx
+        exact ⟨y, List.mem_cons_of_mem _ hy, hc⟩
+
+theorem eraseFirstAccessed_subset (k : Nat) (l : List Sig) : ∀ x ∈ eraseFirstAccessed k l, x ∈ l := by
+  induction l with
+  | nil => simp [eraseFirstAccessed]
+  | cons z r ih =>
+    unfold eraseFirstAccessed
+    split
+    · intro x hx; exact List.mem_cons_of_mem _ hx
+    · intro x hx
+      rcases List.mem_cons.mp hx with rfl | hx
+      · exact List.mem_cons_self
+      · exact List.mem_cons_of_mem _ (ih x hx)
+
+theorem pruneOldest_subset (l : List Sig) : ∀ x ∈ pruneOldest l, x ∈ l := by
+  cases l with
+  | nil => simp [pruneOldest]
+  | cons z r => exact eraseFirstAccessed_subset _ _
+
+theorem store_mem (m : Memory) (sg : Sig) : ∀ x ∈ (m.store sg).sigs, x ∈ m.sigs ∨ x = sg := by
+  intro x hx
+  unfold Memory.store at hx
+  simp only [List.mem_append, List.mem_singleton] at hx
+  rcases hx with hx | hx
+  · left
+    split at hx
+    · exact pruneOldest_subset _ _ hx
+    · exact hx
+  · exact Or.inr hx
+
+/-- the memory as the pipeline sees it after the recall attempt -/
+def Sys.memAfterRecall (s : Sys) (a : Nat) (p : Peptide) : Memory :=
+  ⟨s.mem.cap, (recallGo a p.vocab p.struct (s.clock + 1) s.mem.sigs).1⟩
+
+theorem sys_inspect_cases (s : Sys) (a : Nat) :
+    ((s.agents a).tcell = none ∧ s.inspect a = (s, .raiseValue)) ∨
+    (∃ t, (s.agents a).tcell = some t ∧ (s.agents a).display = none ∧
+      s.inspect a = (s, .resp ⟨.noThreat, .ignore, .unknown, .absent, [], false⟩)) ∨
+    (∃ t p sig, (s.agents a).tcell = some t ∧ (s.agents a).display = some p ∧
+      (recallGo a p.vocab p.struct (s.clock + 1) s.mem.sigs).2 = some sig ∧
+      t.isAnergic = false ∧ check t.profile p ≠ [] ∧
+      (s.inspect a).2 = .resp ⟨sig.level, sig.action, .nonSelf, .cross, [.recalled], false⟩ ∧
+      (s.inspect a).1.mem = s.memAfterRecall a p ∧ (s.inspect a).1.agents = s.agents) ∨
+    (∃ t p, (s.agents a).tcell = some t ∧ (s.agents a).display = some p ∧
+      s.inspect a = s.afterTCell a (s.agents a) p (s.memAfterRecall a p) (t.inspect p).1 (t.inspect p).2) := by
+  unfold Sys.inspect Sys.memAfterRecall
+  cases ht : (s.agents a).tcell with
+  | none => left; simp
+  | some t =>
+    right
+    cases hd : (s.agents a).display with
+    | none => left; exact ⟨t, rfl, rfl, rfl⟩
+    | some p =>
+      right
+      simp only []
+      cases hr : (recallGo a p.vocab p.struct (s.clock + 1) s.mem.sigs).2 with
+      | none => right; exact ⟨t, p, rfl, rfl, rfl⟩
+      | some sig =>
+        simp only []
+        by_cases hg : (!t.isAnergic && !(check t.profile p).isEmpty) = true
+        · left
+          simp only [hg, if_true]
+          simp at hg
+          exact ⟨t, p, sig, rfl, rfl, hr, hg.1, hg.2, by simp⟩
+        · right
+          simp only [hg]
+          exact ⟨t, p, rfl, rfl, rfl⟩
+
+
+/-! ### Thymus arithmetic -/
+
+theorem le_rmax_left (a b : Rat) : a ≤ rmax a b := by unfold rmax; split <;> grind
+theorem le_rmax_right (a b : Rat) : b ≤ rmax a b := by unfold rmax; split <;> grind
+theorem rmin_le_left (a b : Rat) : rmin a b ≤ a := by unfold rmin; split <;> grind
+theorem rmin_le_right (a b : Rat) : rmin a b ≤ b := by unfold rmin; split <;> grind
+
+theorem sum_replicate (n : Nat) (v : Rat) : (List.replicate n v).sum = (n : Rat) * v := by
+  induction n with
+  | zero => simp
+  | succ k ih =>
+    simp only [List.replicate_succ, List.sum_cons, ih]
+    have : ((k + 1 : Nat) : Rat) = (k : Rat) + 1 := by simp
+    rw [this]; grind
+
+theorem mean_replicate (n : Nat) (v : Rat) (h : 0 < n) : mean (List.replicate n v) = v := by
+  unfold mean
+  rw [sum_replicate, List.length_replicate]
+  have hn : (n : Rat) ≠ 0 := by
+    have : (0 : Rat) < (n : Rat) := by exact_mod_cast h
+    grind
+  rw [Rat.mul_comm, Rat.mul_div_cancel hn]
+
+theorem combinedStd_ge (values stds : List Rat) (sd : Rat) : 1 / 100 ≤ combinedStd values stds sd :=
+  le_rmax_right _ _
+
+theorem calcBounds_contains_mean (tol : Rat) (htol : 0 ≤ tol) (values stds : List Rat) (sd : Rat) :
+    (calcBounds tol values stds sd).1 ≤ mean values ∧ mean values ≤ (calcBounds tol values stds sd).2 := by
+  unfold calcBounds
+  have hc : (0 : Rat) ≤ combinedStd values stds sd := by
+    have := combinedStd_ge values stds sd
+    grind
+  have : 0 ≤ tol * combinedStd values stds sd := Rat.mul_nonneg htol hc
+  constructor <;> simp only <;> grind
+
+theorem lmax_ge : ∀ (l : List Rat), ∀ x ∈ l, x ≤ lmax l
+  | [], x, h => by simp at h
+  | [y], x, h => by simp at h; subst h; simp [lmax]
+  | y :: z :: r, x, h => by
+    unfold lmax
+    rcases List.mem_cons.mp h with rfl | h
+    · exact le_rmax_left _ _
+    · exact Rat.le_trans (lmax_ge (z :: r) x h) (le_rmax_right _ _)
+
+theorem lmin_le : ∀ (l : List Rat), ∀ x ∈ l, lmin l ≤ x
+  | [], x, h => by simp at h
+  | [y], x, h => by simp at h; subst h; simp [lmin]
+  | y :: z :: r, x, h => by
+    unfold lmin
+    rcases List.mem_cons.mp h with rfl | h
+    · exact rmin_le_left _ _
+    · exact Rat.le_trans (rmin_le_right _ _) (lmin_le (z :: r) x h)
+
+theorem lmin_mem : ∀ (l : List Rat), l ≠ [] → lmin l ∈ l
+  | [], h => by simp at h
+  | [y], _ => by simp [lmin]
+  | y :: z :: r, _ => by
+    unfold lmin rmin
+    split
+    · exact List.mem_cons_self
+    · exact List.mem_cons_of_mem _ (lmin_mem (z :: r) (by simp))
+
+theorem errMaxOf_ge (samples : List Peptide) : ∀ s ∈ samples, s.errRate ≤ errMaxOf samples := by
+  intro s hs
+  unfold errMaxOf
+  have h1 : s.errRate ≤ lmax (samples.map (·.errRate)) := lmax_ge _ _ (List.mem_map_of_mem hs)
+  have h2 := le_rmax_left (lmax (samples.map (·.errRate)) * 2) (1 / 20)
+  have h3 := le_rmax_right (lmax (samples.map (·.errRate)) * 2) (1 / 20)
+  grind
+
+theorem canaryMinOf_le (samples : List Peptide)
+    (hpos : ∀ s ∈ samples, ∀ c, s.canary = some c → 0 ≤ c) :
+    ∀ s ∈ samples, ∀ c, s.canary = some c → canaryMinOf samples ≤ c := by
+  intro s hs c hc
+  have hmem : c ∈ samples.filterMap (·.canary) := List.mem_filterMap.mpr ⟨s, hs, hc⟩
+  have hne : samples.filterMap (·.canary) ≠ [] := by intro h; rw [h] at hmem; simp at hmem
+  unfold canaryMinOf
+  have hie : (samples.filterMap (·.canary)).isEmpty = false := by simpa using hne
+  simp only [hie]
+  have h1 : lmin (samples.filterMap (·.canary)) ≤ c := lmin_le _ _ hmem
+  have h2 : 0 ≤ lmin (samples.filterMap (·.canary)) := by
+    obtain ⟨s', hs', hc'⟩ := List.mem_filterMap.mp (lmin_mem _ hne)
+    exact hpos s' hs' _ hc'
+  simp only [Bool.false_eq_true, if_false]
+  grind
+
+
+
+/-! ### T cell and Treg facts -/
+
+theorem l17_tcell_two_signal (t : TCell) (p : Peptide) :
+    Threat (t.inspect p).2.level ↔ (¬ InBaseline t.profile p ∧ t.isAnergic = false ∧ t.SecondSignal p) := by
+  rcases inspect_spec t p with ⟨ha, he⟩ | ⟨ha, hc, hl, -⟩ | ⟨ha, hc, -, -, -, -, hl, -⟩
+  · rw [he]; simp [Threat, ha]
+  · rw [hl]
+    have := (check_eq_nil_iff _ _).mp hc
+    simp [Threat, this]
+  · rw [hl, respond_nonSelf_threat]
+    have hnb : ¬ InBaseline t.profile p := fun h => hc ((check_eq_nil_iff _ _).mpr h)
+    have := signal2Of_true_absent_iff t p
+    constructor
+    · intro h
+      refine ⟨hnb, ha, ?_⟩
+      exact Classical.byContradiction fun hn => h (this.mpr hn)
+    · rintro ⟨-, -, hs⟩ habs
+      exact (this.mp habs) hs
+
+theorem l17_tcell_threat_reports_both_signals (t : TCell) (p : Peptide) (h : Threat (t.inspect p).2.level) :
+    (t.inspect p).2.s1 = .nonSelf ∧ (t.inspect p).2.s2 ≠ .absent ∧ (t.inspect p).2.viols = check t.profile p ∧
+    (t.inspect p).2.viols ≠ [] := by
+  rcases inspect_spec t p with ⟨ha, he⟩ | ⟨ha, hc, hl, -⟩ | ⟨ha, hc, h1, h2, h3, -, hl, -⟩
+  · rw [he] at h; simp [Threat] at h
+  · rw [hl] at h; simp [Threat] at h
+  · rw [hl, respond_nonSelf_threat] at h
+    exact ⟨h1, by rw [h2]; exact h, h3, by rw [h3]; exact hc⟩
+
+theorem l17_tcell_action_matches_level (t : TCell) (p : Peptide) :
+    (t.inspect p).2.action = actionFor (t.inspect p).2.level := by
+  rcases inspect_spec t p with ⟨ha, he⟩ | ⟨ha, hc, hl, hac, -⟩ | ⟨ha, hc, -, -, -, -, hl, hac⟩
+  · rw [he]; rfl
+  · rw [hl, hac]; rfl
+  · rw [hl, hac]; exact respond_action _ _ _ _
+
+theorem l17_tcell_inside_baseline_no_threat (t : TCell) (p : Peptide) (h : InBaseline t.profile p) :
+    (t.inspect p).2.level = .noThreat ∧ (t.inspect p).2.action = .ignore := by
+  rcases inspect_spec t p with ⟨ha, he⟩ | ⟨ha, hc, hl, hac, -⟩ | ⟨ha, hc, -⟩
+  · rw [he]; exact ⟨rfl, rfl⟩
+  · exact ⟨hl, hac⟩
+  · exact absurd ((check_eq_nil_iff _ _).mpr h) hc
+
+theorem l17_tcell_anergic_silent (t : TCell) (p : Peptide) (h : t.isAnergic = true) :
+    t.inspect p = (t, ⟨.noThreat, .ignore, .unknown, .absent, [], true⟩) := by
+  rcases inspect_spec t p with ⟨ha, he⟩ | ⟨ha, -⟩ | ⟨ha, -⟩
+  · exact he
+  · rw [h] at ha; cases ha
+  · rw [h] at ha; cases ha
+
+theorem l17_treg_critical_never_changed (g : Treg) (resp : Response) (rec : Record)
+    (h : resp.level = .critical) : g.evaluate resp rec = .ok false resp.action resp.action := by
+  rcases evaluate_spec g resp rec with ⟨-, he⟩ | ⟨hc, -⟩
+  · exact he
+  · exact absurd h hc
+
+theorem l17_treg_one_step (g : Treg) (resp : Response) (rec : Record) (s : Bool) (o m : Action)
+    (h : g.evaluate resp rec = .ok s o m) :
+    o = resp.action ∧ (s = false → m = o) ∧
+    (resp.action ≠ .alert → (resp.level = .suspicious → resp.action = .monitor) → AtMostOneStepLower o m) := by
+  rcases evaluate_spec g resp rec with ⟨-, he⟩ | ⟨hc, he | he | he | ⟨hs, -, he⟩⟩ <;> rw [he] at h
+  · cases h; exact ⟨rfl, fun _ => rfl, fun _ _ => Or.inl rfl⟩
+  · cases h
+  · cases h; exact ⟨rfl, fun _ => rfl, fun _ _ => Or.inl rfl⟩
+  · cases h; exact ⟨rfl, fun h => Bool.noConfusion h, fun ha _ => downgrade_one_step _ ha⟩
+  · cases h
+    refine ⟨rfl, fun h => Bool.noConfusion h, fun _ hm => ?_⟩
+    rw [hm hs]; exact Or.inr ⟨rfl, rfl⟩
+
+
+/-! ### Pipeline, one inspection -/
+
+/-- a remembered threat: a stored signature of this agent with both hashes of the fingerprint -/
+def Remembered (m : Memory) (a : Nat) (p : Peptide) (l : Level) (act : Action) : Prop :=
+  ∃ sig ∈ m.sigs, sig.agent = a ∧ sig.vocab = p.vocab ∧ sig.struct = p.struct ∧ sig.level = l ∧ sig.action = act
+
+/-- the tail of the pipeline never moves an action by more than one rung and leaves CRITICAL alone -/
+theorem softened_one_step (t : TCell) (p : Peptide) (r : Response) (h : Softened (t.inspect p).2 r) :
+    r.level = (t.inspect p).2.level ∧ AtMostOneStepLower (t.inspect p).2.action r.action ∧
+    ((t.inspect p).2.level = .critical → r.action = .shutdown) := by
+  obtain ⟨hl, -, -, -, ha⟩ := h
+  have hm := l17_tcell_action_matches_level t p
+  refine ⟨hl, ?_, ?_⟩
+  · rcases ha with ha | ⟨-, ha | ⟨hs, ha⟩⟩
+    · exact Or.inl ha
+    · rw [ha]; apply downgrade_one_step
+      rw [hm]; cases (t.inspect p).2.level <;> simp [actionFor]
+    · rw [ha, hm, hs]; exact Or.inr ⟨rfl, rfl⟩
+  · intro hc
+    rcases ha with ha | ⟨hn, -⟩
+    · rw [ha, hm, hc]; rfl
+    · exact absurd hc hn
+
+theorem l17_pipeline_two_signal (s : Sys) (a : Nat) (r : Response)
+    (h : (s.inspect a).2 = .resp r) (ht : Threat r.level) :
+    ∃ t p, (s.agents a).tcell = some t ∧ (s.agents a).display = some p ∧
+      ¬ InBaseline t.profile p ∧ t.isAnergic = false ∧
+      (t.SecondSignal p ∨ Remembered s.mem a p r.level r.action) ∧ r.s1 = .nonSelf ∧ r.s2 ≠ .absent := by
+  rcases sys_inspect_cases s a with ⟨-, he⟩ | ⟨t, -, -, he⟩ | ⟨t, p, sig, h1, h2, hr, ha, hc, he, -⟩ | ⟨t, p, h1, h2, he⟩
+  · rw [he] at h; cases h
+  · rw [he] at h; cases h; simp [Threat] at ht
+  · rw [he] at h; cases h
+    obtain ⟨hm, hag, hv, hs⟩ := recallGo_some _ _ _ _ _ _ hr
+    exact ⟨t, p, h1, h2, fun hb => hc ((check_eq_nil_iff _ _).mpr hb), ha,
+      Or.inr ⟨sig, hm, hag, hv, hs, rfl, rfl⟩, rfl, by simp⟩
+  · rw [he] at h
+    rcases afterTCell_spec s a (s.agents a) p (s.memAfterRecall a p) (t.inspect p).1 (t.inspect p).2 with
+      ⟨hx, -⟩ | ⟨r', hx, hsoft, -⟩
+    · rw [hx] at h; cases h
+    · rw [hx] at h; cases h
+      obtain ⟨hl, hs1, hs2, -, -⟩ := hsoft
+      rw [hl] at ht
+      obtain ⟨hnb, hna, hss⟩ := (l17_tcell_two_signal t p).mp ht
+      obtain ⟨g1, g2, -, -⟩ := l17_tcell_threat_reports_both_signals t p ht
+      exact ⟨t, p, h1, h2, hnb, hna, Or.inl hss, by rw [hs1]; exact g1, by rw [hs2]; exact g2⟩
+
+theorem l17_pipeline_inside_baseline_no_threat (s : Sys) (a : Nat) (r : Response) (t : TCell) (p : Peptide)
+    (h : (s.inspect a).2 = .resp r) (htc : (s.agents a).tcell = some t) (hd : (s.agents a).display = some p)
+    (hb : InBaseline t.profile p) : r.level = .noThreat ∧ r.action = .ignore := by
+  rcases sys_inspect_cases s a with ⟨h0, -⟩ | ⟨t', -, h0, -⟩ | ⟨t', p', sig, h1, h2, -, -, hc, -⟩ | ⟨t', p', h1, h2, he⟩
+  · rw [htc] at h0; cases h0
+  · rw [hd] at h0; cases h0
+  · rw [htc] at h1; rw [hd] at h2; cases h1; cases h2
+    exact absurd ((check_eq_nil_iff _ _).mpr hb) hc
+  · rw [htc] at h1; rw [hd] at h2; cases h1; cases h2
+    rw [he] at h
+    rcases afterTCell_spec s a (s.agents a) p (s.memAfterRecall a p) (t.inspect p).1 (t.inspect p).2 with
+      ⟨hx, -⟩ | ⟨r', hx, hsoft, -⟩
+    · rw [hx] at h; cases h
+    · rw [hx] at h; cases h
+      obtain ⟨hl, ha⟩ := l17_tcell_inside_baseline_no_threat t p hb
+      obtain ⟨h1, -, -, -, h5⟩ := hsoft
+      refine ⟨by rw [h1, hl], ?_⟩
+      rcases h5 with h5 | ⟨-, h5 | ⟨hs, -⟩⟩
+      · rw [h5, ha]
+      · rw [h5, ha]; rfl
+      · rw [hl] at hs; cases hs
+
+theorem l17_pipeline_no_fingerprint_no_threat (s : Sys) (a : Nat) (r : Response)
+    (h : (s.inspect a).2 = .resp r) (hd : (s.agents a).display = none) :
+    r.level = .noThreat ∧ r.action = .ignore := by
+  rcases sys_inspect_cases s a with ⟨-, he⟩ | ⟨t', -, -, he⟩ | ⟨t', p', sig, -, h2, -⟩ | ⟨t', p', -, h2, -⟩
+  · rw [he] at h; cases h
+  · rw [he] at h; cases h; exact ⟨rfl, rfl⟩
+  · rw [hd] at h2; cases h2
+  · rw [hd] at h2; cases h2
+
+theorem l17_pipeline_anergic_silent (s : Sys) (a : Nat) (r : Response) (t : TCell)
+    (h : (s.inspect a).2 = .resp r) (htc : (s.agents a).tcell = some t) (han : t.isAnergic = true) :
+    r.level = .noThreat ∧ r.action = .ignore := by
+  rcases sys_inspect_cases s a with ⟨h0, -⟩ | ⟨t', -, -, he⟩ | ⟨t', p', sig, h1, -, -, ha, -⟩ | ⟨t', p', h1, h2, he⟩
+  · rw [htc] at h0; cases h0
+  · rw [he] at h; cases h; exact ⟨rfl, rfl⟩
+  · rw [htc] at h1; cases h1; rw [han] at ha; cases ha
+  · rw [htc] at h1; cases h1
+    rw [he] at h
+    rcases afterTCell_spec s a (s.agents a) p' (s.memAfterRecall a p') (t.inspect p').1 (t.inspect p').2 with
+      ⟨hx, -⟩ | ⟨r', hx, hsoft, -⟩
+    · rw [hx] at h; cases h
+    · rw [hx] at h; cases h
+      rw [l17_tcell_anergic_silent t p' han] at hsoft
+      obtain ⟨h1, -, -, -, h5⟩ := hsoft
+      refine ⟨h1, ?_⟩
+      rcases h5 with h5 | ⟨-, h5 | ⟨hs, -⟩⟩
+      · exact h5
+      · exact h5
+      · cases hs
+
+theorem l17_pipeline_tolerance_one_step (s : Sys) (a : Nat) (r : Response) (t : TCell) (p : Peptide)
+    (h : (s.inspect a).2 = .resp r) (htc : (s.agents a).tcell = some t) (hd : (s.agents a).display = some p) :
+    (r.s2 = .cross ∧ Remembered s.mem a p r.level r.action) ∨
+    (r.level = (t.inspect p).2.level ∧ AtMostOneStepLower (t.inspect p).2.action r.action ∧
+      ((t.inspect p).2.level = .critical → r.action = .shutdown)) := by
+  rcases sys_inspect_cases s a with ⟨h0, -⟩ | ⟨t', -, h0, -⟩ | ⟨t', p', sig, h1, h2, hr, -, -, he, -⟩ | ⟨t', p', h1, h2, he⟩
+  · rw [htc] at h0; cases h0
+  · rw [hd] at h0; cases h0
+  · rw [htc] at h1; rw [hd] at h2; cases h1; cases h2
+    rw [he] at h; cases h
+    obtain ⟨hm, hag, hv, hs⟩ := recallGo_some _ _ _ _ _ _ hr
+    exact Or.inl ⟨rfl, sig, hm, hag, hv, hs, rfl, rfl⟩
+  · rw [htc] at h1; rw [hd] at h2; cases h1; cases h2
+    rw [he] at h
+    rcases afterTCell_spec s a (s.agents a) p (s.memAfterRecall a p) (t.inspect p).1 (t.inspect p).2 with
+      ⟨hx, -⟩ | ⟨r', hx, hsoft, -⟩
+    · rw [hx] at h; cases h
+    · rw [hx] at h; cases h
+      exact Or.inr (softened_one_step t p _ hsoft)
+
+
+/-! ### Pipeline histories -/
+
+theorem inspect_s2_ne_cross (t : TCell) (p : Peptide) : (t.inspect p).2.s2 ≠ .cross := by
+  rcases inspect_spec t p with ⟨-, he⟩ | ⟨-, -, -, -, -, -, -, h | h⟩ | ⟨-, -, -, h, -⟩
+  · rw [he]; simp
+  · rw [h]; simp
+  · rw [h]; simp
+  · rw [h]; unfold signal2Of
+    split
+    · simp
+    · split
+      · simp
+      · split <;> simp
+
+/-- where the signatures in memory after an inspection come from: they were there before (possibly re-stamped),
+    or the inspection itself reported a threat through the T cell and stored it -/
+theorem inspect_mem (s : Sys) (a : Nat) :
+    ∀ x ∈ (s.inspect a).1.mem.sigs,
+      (∃ y ∈ s.mem.sigs, y.core = x.core) ∨
+      (∃ p r k, (s.agents a).display = some p ∧ (s.inspect a).2 = .resp r ∧ Threat r.level ∧ r.s2 ≠ .cross ∧
+        (r.level = .critical → r.action = .shutdown) ∧ x = ⟨a, p.vocab, p.struct, r.level, r.action, k⟩) := by
+  intro x hx
+  rcases sys_inspect_cases s a with ⟨-, he⟩ | ⟨t, -, -, he⟩ | ⟨t, p, sig, -, -, -, -, -, -, hm, -⟩ | ⟨t, p, -, h2, he⟩
+  · rw [he] at hx; exact Or.inl ⟨x, hx, rfl⟩
+  · rw [he] at hx; exact Or.inl ⟨x, hx, rfl⟩
+  · rw [hm] at hx; exact Or.inl (recallGo_core _ _ _ _ _ x hx)
+  · rw [he] at hx ⊢
+    rcases afterTCell_spec s a (s.agents a) p (s.memAfterRecall a p) (t.inspect p).1 (t.inspect p).2 with
+      ⟨-, hm⟩ | ⟨r', hx', hsoft, ⟨-, hm⟩ | ⟨hthr, k, hm⟩⟩
+    · rw [hm] at hx; exact Or.inl (recallGo_core _ _ _ _ _ x hx)
+    · rw [hm] at hx; exact Or.inl (recallGo_core _ _ _ _ _ x hx)
+    · rw [hm] at hx
+      rcases store_mem _ _ x hx with hx | hx
+      · exact Or.inl (recallGo_core _ _ _ _ _ x hx)
+      · right
+        obtain ⟨h1, h2', h3⟩ := softened_one_step t p r' hsoft
+        refine ⟨p, r', k, h2, hx', by rw [h1]; exact hthr, ?_, ?_, ?_⟩
+        · rw [hsoft.2.2.1]; exact inspect_s2_ne_cross t p
+        · intro hc; rw [h1] at hc; exact h3 hc
+        · rw [hx, h1]
+
+theorem train_mem (s : Sys) (a : Nat) : (s.train a).1.mem = s.mem := by
+  unfold Sys.train
+  split
+  · split
+    · rfl
+    · split <;> rfl
+  · rfl
+
+theorem step_mem (s : Sys) (op : Op) (h : ∀ a, op ≠ .inspect a) : (s.step op).1.mem = s.mem := by
+  cases op with
+  | inspect a => exact absurd rfl (h a)
+  | train a => exact train_mem s a
+  | register a => rfl
+  | showP a p => simp only [Sys.step, Sys.showPeptide]; split <;> rfl
+  | flag a b => simp only [Sys.step, Sys.flag]; split <;> rfl
+  | reset a => simp only [Sys.step, Sys.resetT]; split <;> rfl
+  | resetFA a => simp only [Sys.step, Sys.resetT]; split <;> rfl
+  | dropRecord a => rfl
+
+/-- an earlier inspection in the trace reported exactly this signature's threat, through the T cell -/
+def Reported (tr : List Obs) (x : Sig) : Prop :=
+  ∃ p r, Obs.inspected x.agent (some p) (.resp r) ∈ tr ∧ p.vocab = x.vocab ∧ p.struct = x.struct ∧
+    r.level = x.level ∧ r.action = x.action ∧ r.s2 ≠ .cross
+
+def MemGenuine (m : Memory) (tr : List Obs) : Prop :=
+  ∀ x ∈ m.sigs, Threat x.level ∧ (x.level = .critical → x.action = .shutdown) ∧ Reported tr x
+
+theorem reported_of_core (tr : List Obs) (x y : Sig) (h : y.core = x.core) (hy : Reported tr y) : Reported tr x := by
+  simp only [Sig.core, Prod.mk.injEq] at h
+  obtain ⟨h1, h2, h3, h4, h5⟩ := h
+  obtain ⟨p, r, hm, a, b, c, d, e⟩ := hy
+  exact ⟨p, r, by rw [← h1]; exact hm, by rw [← h2]; exact a, by rw [← h3]; exact b, by rw [← h4]; exact c,
+    by rw [← h5]; exact d, e⟩
+
+theorem reported_mono (tr more : List Obs) (x : Sig) (h : Reported tr x) : Reported (tr ++ more) x := by
+  obtain ⟨p, r, hm, rest⟩ := h
+  exact ⟨p, r, List.mem_append_left _ hm, rest⟩
+
+theorem step_genuine (s : Sys) (pre : List Obs) (op : Op) (h : MemGenuine s.mem pre) :
+    MemGenuine (s.step op).1.mem (pre ++ [(s.step op).2]) := by
+  by_cases hi : ∃ a, op = .inspect a
+  · obtain ⟨a, rfl⟩ := hi
+    intro x hx
+    simp only [Sys.step] at hx ⊢
+    rcases inspect_mem s a x hx with ⟨y, hy, hc⟩ | ⟨p, r, k, hd, hr, hthr, hs2, hcr, rfl⟩
+    · obtain ⟨g1, g2, g3⟩ := h y hy
+      have hc' := hc
+      simp only [Sig.core, Prod.mk.injEq] at hc'
+      refine ⟨by rw [← hc'.2.2.2.1]; exact g1, ?_, reported_mono _ _ _ (reported_of_core _ _ _ hc g3)⟩
+      rw [← hc'.2.2.2.1, ← hc'.2.2.2.2]; exact g2
+    · refine ⟨hthr, hcr, p, r, ?_, rfl, rfl, rfl, rfl, hs2⟩
+      rw [hd, hr]; simp
+  · have hm := step_mem s op (fun a ha => hi ⟨a, ha⟩)
+    intro x hx
+    rw [hm] at hx
+    obtain ⟨g1, g2, g3⟩ := h x hx
+    exact ⟨g1, g2, reported_mono _ _ _ g3⟩
+
+theorem run_genuine (ops : List Op) : ∀ (s : Sys) (pre : List Obs), MemGenuine s.mem pre →
+    MemGenuine (s.run ops).1.mem (pre ++ (s.run ops).2) := by
+  induction ops with
+  | nil => intro s pre h; simpa [Sys.run] using h
+  | cons op rest ih =>
+    intro s pre h
+    have := ih (s.step op).1 (pre ++ [(s.step op).2]) (step_genuine s pre op h)
+    simpa [Sys.run] using this
+
+/-- a response that comes out CRITICAL recommends SHUTDOWN, provided the memory only holds such pairs -/
+theorem inspect_critical_shutdown (s : Sys) (a : Nat) (r : Response)
+    (hm : ∀ x ∈ s.mem.sigs, x.level = .critical → x.action = .shutdown)
+    (h : (s.inspect a).2 = .resp r) (hc : r.level = .critical) : r.action = .shutdown := by
+  rcases sys_inspect_cases s a with ⟨-, he⟩ | ⟨t, -, -, he⟩ | ⟨t, p, sig, -, -, hr, -, -, he, -⟩ | ⟨t, p, -, -, he⟩
+  · rw [he] at h; cases h
+  · rw [he] at h; cases h; cases hc
+  · rw [he] at h; cases h
+    exact hm sig (recallGo_some _ _ _ _ _ _ hr).1 hc
+  · rw [he] at h
+    rcases afterTCell_spec s a (s.agents a) p (s.memAfterRecall a p) (t.inspect p).1 (t.inspect p).2 with
+      ⟨hx, -⟩ | ⟨r', hx, hsoft, -⟩
+    · rw [hx] at h; cases h
+    · rw [hx] at h; cases h
+      obtain ⟨h1, -, h3⟩ := softened_one_step t p _ hsoft
+      exact h3 (by rw [← h1]; exact hc)
+
+theorem run_critical_shutdown (ops : List Op) : ∀ (s : Sys) (pre : List Obs), MemGenuine s.mem pre →
+    ∀ o ∈ (s.run ops).2, ∀ a sh r, o = .inspected a sh (.resp r) → r.level = .critical → r.action = .shutdown := by
+  induction ops with
+  | nil => intro s pre _ o ho; simp [Sys.run] at ho
+  | cons op rest ih =>
+    intro s pre h o ho a sh r hor hc
+    simp only [Sys.run, List.mem_cons] at ho
+    rcases ho with ho | ho
+    · cases op with
+      | inspect b =>
+        simp only [Sys.step] at ho
+        rw [hor] at ho
+        injection ho with e1 e2 e3
+        exact inspect_critical_shutdown s b r (fun x hx => (h x hx).2.1) e3.symm hc
+      | _ => simp [Sys.step, hor] at ho
+    · exact ih (s.step op).1 (pre ++ [(s.step op).2]) (step_genuine s pre op h) o ho a sh r hor hc
+
+
+/-! ### Training and T-cell histories -/
+
+/-! thymus -/
+theorem profileOf_accepts (cfg : ThymusCfg) (sd : Sds) (samples : List Peptide) (htol : 0 ≤ cfg.tol) :
+    ((profileOf cfg sd samples).lenLo ≤ mean (samples.map (·.lenMean)) ∧
+      mean (samples.map (·.lenMean)) ≤ (profileOf cfg sd samples).lenHi) ∧
+    ((profileOf cfg sd samples).timeLo ≤ mean (samples.map (·.timeMean)) ∧
+      mean (samples.map (·.timeMean)) ≤ (profileOf cfg sd samples).timeHi) ∧
+    ((profileOf cfg sd samples).confLo ≤ mean (samples.map (·.confMean)) ∧
+      mean (samples.map (·.confMean)) ≤ (profileOf cfg sd samples).confHi) ∧
+    (∀ s ∈ samples, s.errRate ≤ (profileOf cfg sd samples).errMax ∧ s.vocab ∈ (profileOf cfg sd samples).vocabs ∧
+      s.struct ∈ (profileOf cfg sd samples).structs) ∧
+    ((∀ s ∈ samples, ∀ c, s.canary = some c → 0 ≤ c) →
+      ∀ s ∈ samples, ∀ c, s.canary = some c → (profileOf cfg sd samples).canaryMin ≤ c) := by
+  refine ⟨calcBounds_contains_mean _ htol _ _ _, calcBounds_contains_mean _ htol _ _ _,
+    calcBounds_contains_mean _ htol _ _ _, ?_, ?_⟩
+  · intro s hs
+    exact ⟨errMaxOf_ge samples s hs, List.mem_map_of_mem hs, List.mem_map_of_mem hs⟩
+  · intro hpos
+    exact canaryMinOf_le samples hpos
+
+theorem profileOf_replicate_inBaseline (cfg : ThymusCfg) (sd : Sds) (n : Nat) (p : Peptide) (hn : 0 < n)
+    (htol : 0 ≤ cfg.tol) (hc : ∀ c, p.canary = some c → 0 ≤ c) :
+    InBaseline (profileOf cfg sd (List.replicate n p)) p := by
+  obtain ⟨⟨a1, a2⟩, ⟨b1, b2⟩, ⟨c1, c2⟩, d, e⟩ := profileOf_accepts cfg sd (List.replicate n p) htol
+  have hmem : p ∈ List.replicate n p := List.mem_replicate.mpr ⟨by omega, rfl⟩
+  simp only [List.map_replicate, mean_replicate _ _ hn] at a1 a2 b1 b2 c1 c2
+  obtain ⟨d1, d2, d3⟩ := d p hmem
+  refine ⟨a1, a2, b1, b2, c1, c2, d1, d2, d3, ?_⟩
+  exact e (fun s hs c h => by rw [(List.mem_replicate.mp hs).2] at h; exact hc c h) p hmem
+
+theorem trainThymus_positive (cfg : ThymusCfg) (sd : Sds) (samples : List Peptide) (pr : Profile)
+    (h : trainThymus cfg sd samples = .positive pr) : samples ≠ [] ∧ pr = profileOf cfg sd samples := by
+  unfold trainThymus at h
+  split at h
+  · cases h
+  · split at h
+    · cases h
+    · split at h
+      · cases h
+      · rename_i hne
+        injection h with h
+        exact ⟨by simpa using hne, h.symm⟩
+
+theorem train_positive (s : Sys) (a : Nat) (h : (s.train a).2 = .sel .positive) :
+    ∃ p, (s.agents a).display = some p ∧ 0 < s.minTrain.toNat ∧
+      ((s.train a).1.agents a).display = some p ∧
+      ((s.train a).1.agents a).tcell = some (TCell.fresh
+        (profileOf ⟨s.minTrain, s.tol, s.varThr⟩ ⟨0, 0, 0⟩ (List.replicate s.minTrain.toNat p)) 3 5) := by
+  unfold Sys.train at h ⊢
+  by_cases hr : (s.agents a).registered = true
+  · simp only [hr, if_true] at h ⊢
+    cases hd : (s.agents a).display with
+    | none => simp [hd] at h
+    | some p =>
+      simp only [hd] at h ⊢
+      cases ht : trainThymus ⟨s.minTrain, s.tol, s.varThr⟩ ⟨0, 0, 0⟩ (List.replicate s.minTrain.toNat p) with
+      | positive pr =>
+        obtain ⟨hne, hpr⟩ := trainThymus_positive _ _ _ _ ht
+        refine ⟨p, rfl, ?_, ?_⟩
+        · cases hn : s.minTrain.toNat with
+          | zero => rw [hn] at hne; simp at hne
+          | succ k => omega
+        · simp [Sys.setAgent, hpr]
+      | insufficient => simp [ht] at h
+      | anergic => simp [ht] at h
+      | raiseStats => simp [ht] at h
+  · simp [hr] at h
+
+theorem self_tolerance (s : Sys) (a : Nat) (htol : 0 ≤ s.tol)
+    (hcan : ∀ p c, (s.agents a).display = some p → p.canary = some c → 0 ≤ c)
+    (h : (s.train a).2 = .sel .positive) :
+    ((s.train a).1.inspect a).2 ≠ .raiseValue ∧
+    ∀ r, ((s.train a).1.inspect a).2 = .resp r → r.level = .noThreat ∧ r.action = .ignore := by
+  obtain ⟨p, hd, hn, hd', ht'⟩ := train_positive s a h
+  constructor
+  · intro hrv
+    rcases sys_inspect_cases (s.train a).1 a with ⟨h0, -⟩ | ⟨t, -, -, he⟩ | ⟨t, p', sig, -, -, -, -, -, he, -⟩ | ⟨t, p', -, -, he⟩
+    · rw [ht'] at h0; cases h0
+    · rw [he] at hrv; cases hrv
+    · rw [he] at hrv; cases hrv
+    · rw [he] at hrv
+      rcases afterTCell_spec (s.train a).1 a ((s.train a).1.agents a) p' ((s.train a).1.memAfterRecall a p')
+        (t.inspect p').1 (t.inspect p').2 with ⟨hx, -⟩ | ⟨r', hx, -⟩ <;> rw [hx] at hrv <;> cases hrv
+  · intro r hr
+    refine l17_pipeline_inside_baseline_no_threat _ a r _ p hr ht' hd' ?_
+    exact profileOf_replicate_inBaseline _ _ _ p hn htol (fun c hc => hcan p c hd hc)
+
+/-! T-cell histories -/
+
+/-- consecutive violating inspections at the end of a history (argument: most recent operation first) -/
+def trailingAnomalies (pr : Profile) : List TOp → Nat
+  | [] => 0
+  | .inspect p :: rest => if check pr p = [] then 0 else trailingAnomalies pr rest + 1
+  | .flag _ :: rest => trailingAnomalies pr rest
+  | .reset :: _ => 0
+  | .resetFA :: _ => 0
+
+/-- a non-empty manual flag was set and not cleared by a reset since (most recent operation first) -/
+def flaggedSince : List TOp → Bool
+  | [] => false
+  | .flag b :: _ => b
+  | .reset :: _ => false
+  | .inspect _ :: rest => flaggedSince rest
+  | .resetFA :: rest => flaggedSince rest
+
+/-- invariant of a T-cell history; `h` is the history so far, most recent operation first -/
+structure TInv (pr : Profile) (rep : Int) (t : TCell) (h : List TOp) : Prop where
+  prof : t.profile = pr
+  rep : t.repThr = rep
+  streak : t.anomaly ≤ trailingAnomalies pr h
+  flag : t.flag = true → flaggedSince h = true
+  quiet : t.isAnergic = true → t.anomaly = 0
+
+theorem tstep_inv (pr : Profile) (rep : Int) (t : TCell) (h : List TOp) (op : TOp) (inv : TInv pr rep t h) :
+    TInv pr rep (t.step op).1 (op :: h) := by
+  obtain ⟨h1, h2, h3, h4, h5⟩ := inv
+  cases op with
+  | inspect p =>
+    simp only [TCell.step]
+    unfold TCell.inspect
+    by_cases ha : t.isAnergic = true
+    · simp only [ha, if_true]
+      exact ⟨h1, h2, by rw [h5 ha]; exact Nat.zero_le _, by simpa [flaggedSince] using h4, h5⟩
+    · have ha' : t.isAnergic = false := by simpa using ha
+      simp only [ha', Bool.false_eq_true, if_false]
+      by_cases hc : (check t.profile p).isEmpty = true
+      · simp only [hc, if_true]
+        exact ⟨h1, h2, Nat.zero_le _, by simpa [flaggedSince] using h4, fun _ => rfl⟩
+      · have hc' : (check t.profile p).isEmpty = false := by simpa using hc
+        simp only [hc', Bool.false_eq_true, if_false]
+        have hne : check pr p ≠ [] := by rw [← h1]; simpa using hc
+        refine ⟨h1, h2, ?_, by simpa [flaggedSince] using h4, ?_⟩
+        · simp only [trailingAnomalies, hne, if_false]; omega
+        · intro hx; exact absurd hx ha
+  | flag b =>
+    simp only [TCell.step, TCell.flagManually]
+    exact ⟨h1, h2, by simpa [trailingAnomalies] using h3, by simp [flaggedSince], h5⟩
+  | reset =>
+    simp only [TCell.step, TCell.reset]
+    exact ⟨h1, h2, Nat.zero_le _, by simp, fun _ => rfl⟩
+  | resetFA =>
+    simp only [TCell.step, TCell.resetFA]
+    exact ⟨h1, h2, Nat.zero_le _, by simpa [flaggedSince] using h4, fun _ => rfl⟩
+
+theorem trun_inv (pr : Profile) (rep : Int) (ops : List TOp) : ∀ (t : TCell) (h : List TOp), TInv pr rep t h →
+    TInv pr rep (t.run ops) (ops.reverse ++ h) := by
+  induction ops with
+  | nil => intro t h inv; simpa [TCell.run] using inv
+  | cons op rest ih =>
+    intro t h inv
+    have := ih _ _ (tstep_inv pr rep t h op inv)
+    simpa [TCell.run] using this
+
+theorem fresh_inv (pr : Profile) (rep an : Int) : TInv pr rep (TCell.fresh pr rep an) [] :=
+  ⟨rfl, rfl, Nat.le_refl _, by simp [TCell.fresh], fun _ => rfl⟩
+
+theorem tstep_anergic (t : TCell) (op : TOp) (h : t.isAnergic = true) : (t.step op).1.isAnergic = true := by
+  cases op with
+  | inspect p =>
+    simp only [TCell.step]
+    unfold TCell.inspect
+    simp [h]
+  | flag b => exact h
+  | reset => exact h
+  | resetFA =>
+    simp only [TCell.step, TCell.resetFA, TCell.isAnergic, decide_eq_true_eq] at h ⊢
+    by_cases hcnd : t.lastS1 = .nonSelf ∧ t.lastS2 = .absent
+    · simp only [hcnd, and_self, if_true, decide_eq_true_eq]; omega
+    · simp only [hcnd, if_false, decide_eq_true_eq]; exact h
+
+theorem trun_anergic (ops : List TOp) : ∀ t : TCell, t.isAnergic = true → (t.run ops).isAnergic = true := by
+  induction ops with
+  | nil => intro t h; simpa [TCell.run] using h
+  | cons op rest ih => intro t h; exact ih _ (tstep_anergic t op h)
+
+
 end Operon.Immune
